@@ -44,6 +44,8 @@ enum Step {
     /// 5: execute_with_callback at the real clock (the real clock lies before the whole lattice)
     Exec(usize),
     Focus(usize),
+    /// RustRuleEngine::activate_agenda_group (programmatic counterpart of the ActivateAgendaGroup action)
+    ActivateApi(usize),
     Pop,
     Clear,
     ResetNoLoop,
@@ -148,7 +150,8 @@ fn gen_case(s: &mut Src, exh: u32) -> Case {
     let ns = 3 + s.below(6);
     let mut steps = Vec::new();
     for _ in 0..ns {
-        let st = match s.weighted(&[8, 3, 1, 1, 2, 1, 2]) {
+        let st = match s.weighted(&[8, 3, 1, 1, 2, 1, 2, 2]) {
+            7 => Step::ActivateApi(s.below(3)),
             0 => Step::Exec(if small { [0, 0, 4, 5][s.below(4)] } else { s.below(6) }),
             1 => Step::Focus(s.below(3)),
             2 => Step::Pop,
@@ -350,9 +353,27 @@ fn judge(c: &Case, ctx: &mut Ctx) -> Verdict {
     let mut nt_lock = false;
     let mut nt_suppressed = false;
     let mut activations: BTreeMap<usize, usize> = BTreeMap::new();
+    // groups activated through the API since the last execute: the engine re-applies them when execute starts
+    let mut pending_api: Vec<usize> = Vec::new();
+    let mut focus_op_while_pending = false;
     for (si, st) in c.steps.iter().enumerate() {
         match st {
             Step::Exec(slot) => {
+                if !pending_api.is_empty() {
+                    if focus_op_while_pending {
+                        // set/pop/clear focus between an API activation and the next execute: which group is
+                        // focused when execute starts is not stated → stop judging this history here
+                        ctx.label("cut:focus-op-between-api-activation-and-execute");
+                        break;
+                    }
+                    // execute starts by re-applying the API activations in the order they were made: the focus
+                    // ends where it already was, and each is an activation of its group
+                    for g in pending_api.drain(..) {
+                        m.activate(g);
+                    }
+                    ctx.label("execute-after-api-activations");
+                }
+                focus_op_while_pending = false;
                 execs += 1;
                 log.lock().unwrap().clear();
                 let before_flags = m.flags;
@@ -411,12 +432,24 @@ fn judge(c: &Case, ctx: &mut Ctx) -> Verdict {
                     }
                 }
             }
+            Step::ActivateApi(g) => {
+                engine.activate_agenda_group(GROUPS[*g].to_string());
+                m.activate(*g);
+                pending_api.push(*g);
+                *activations.entry(*g).or_default() += 1;
+            }
             Step::Focus(g) => {
+                if !pending_api.is_empty() {
+                    focus_op_while_pending = true;
+                }
                 engine.set_agenda_focus(GROUPS[*g]);
                 m.activate(*g);
                 *activations.entry(*g).or_default() += 1;
             }
             Step::Pop | Step::Clear => {
+                if !pending_api.is_empty() {
+                    focus_op_while_pending = true;
+                }
                 if matches!(st, Step::Pop) {
                     engine.pop_agenda_focus();
                     if m.stack.len() > 1 {
@@ -560,7 +593,7 @@ pub fn property() -> Property {
     Property {
         id: "C02",
         level: "exploration",
-        rule: "generated: 2-7 API-built rules with salience from {i32::MIN,-5,0,0,3,3,7,i32::MAX} (ties on purpose), enabled flag, no-loop, lock-on-active, agenda group in {MAIN,g1,g2}, activation group in {none,a1,a2}, date window on a 5-instant lattice; conditions flag==bool or constant true; actions trace(name) + flag assignments + ActivateAgendaGroup; histories of 3-8 steps from {execute_at_time(t strictly inside a lattice interval), execute() and execute_with_callback() at the real clock (which lies before the whole lattice), set_agenda_focus, pop, clear, reset_no_loop_tracking, set_rule_enabled, flip a flag}; max_cycles 1..4; plus rule sets of 21-60 rules with 1-4 salience levels (an unstable sort only shows on slices > 20); plus exhaustive enumeration of a reduced attribute space for 3 rules x (execute, focus/reset step, execute). Oracle: model interpreter of the eligibility gate written from the statement (exact trace of every execute, rules_fired, active agenda group after every step). Returning to a group by pop/clear is not an activation (a lock-on-active rule that fired stays locked). Non-trivial: >= 2 executes and (salience tie with both firing, or activation-group contention with two true conditions, or a lock-on-active rule whose group was activated >= 2 times, or a rule suppressed by focus/date/enabled although its condition was true); distinct by structural hash of the case.",
+        rule: "generated: 2-7 API-built rules with salience from {i32::MIN,-5,0,0,3,3,7,i32::MAX} (ties on purpose), enabled flag, no-loop, lock-on-active, agenda group in {MAIN,g1,g2}, activation group in {none,a1,a2}, date window on a 5-instant lattice; conditions flag==bool or constant true; actions trace(name) + flag assignments + ActivateAgendaGroup; histories of 3-8 steps from {execute_at_time(t strictly inside a lattice interval), execute() and execute_with_callback() at the real clock (which lies before the whole lattice), set_agenda_focus, activate_agenda_group (API), pop, clear, reset_no_loop_tracking, set_rule_enabled, flip a flag}; max_cycles 1..4; plus rule sets of 21-60 rules with 1-4 salience levels (an unstable sort only shows on slices > 20); plus exhaustive enumeration of a reduced attribute space for 3 rules x (execute, focus/reset step, execute). Oracle: model interpreter of the eligibility gate written from the statement (exact trace of every execute, rules_fired, active agenda group after every step). Returning to a group by pop/clear is not an activation (a lock-on-active rule that fired stays locked). Non-trivial: >= 2 executes and (salience tie with both firing, or activation-group contention with two true conditions, or a lock-on-active rule whose group was activated >= 2 times, or a rule suppressed by focus/date/enabled although its condition was true); distinct by structural hash of the case.",
         assumptions: vec!["date boundaries are excluded by construction (evaluation instants lie strictly inside lattice intervals)".into(), "rules_evaluated is not compared".into()],
         parts: vec![
             Part { name: "random", run, quick: Budget::Random { cases: 60_000, bytes: 300 }, thorough: Budget::Random { cases: 3_000_000, bytes: 300 }, min_nontrivial_pct: 30 },
